@@ -35,7 +35,11 @@ type Interp struct {
 	steps int
 	depth int
 	curFr *frame
+	cmpEqualMethods bool // set while go-cmp's Equal is being modelled: Equal methods of gribigo types are honoured
 	atomicPtrs map[*value]value // contents of sync/atomic.Pointer[T] cells, keyed by receiver
+	strOrd     map[string][]string // this path's decided order facts between string terms: key < each element
+	strOrdConc map[string]string   // term key -> concrete string, for terms that are constants or were decided equal to one
+	strAlias   map[string]string   // term key -> key of the symbolic string it was decided equal to
 
 	inputCount map[string]int
 	inputs     []*inputRec
@@ -156,6 +160,9 @@ func (in *Interp) litKnown(t *Term) (bool, bool) {
 func (in *Interp) learn(t *Term, truth bool) {
 	b, pol := stripNot(t)
 	in.known[b] = truth == pol
+	if truth == pol {
+		in.strLearnEq(b)
+	}
 	if b.op == "and" && (truth == pol) {
 		for _, a := range b.args {
 			in.learn(a, true)
@@ -438,7 +445,96 @@ func (in *Interp) snapshotModel(m *Model) map[string]string {
 			out[r.name] = v.String()
 		}
 	}
+	in.orderStrings(out)
 	return out
+}
+
+// orderStrings re-renders free-form symbolic strings (kinds "str", "str:ni") so that the concrete inputs respect
+// the lexical order this path decided for them (strLess): the Str sort knows equality only, so the solver's
+// value says nothing about order.  Each such string becomes <greatest string decided below it> + "!" + <tag>,
+// which lies above that string and below every greater string that does not extend it; when that fails to satisfy
+// an upper bound the solver's rendering is kept (the native replay then decides).
+func (in *Interp) orderStrings(out map[string]string) {
+	if len(in.strOrd) == 0 {
+		return
+	}
+	type symIn struct{ name, key string }
+	var syms []symIn
+	isSym := map[string]bool{}
+	for _, r := range in.inputs {
+		if r.kind != "str" && r.kind != "str:ni" {
+			continue
+		}
+		k := in.strCanon(in.ts.Show(r.term))
+		if _, c := in.strOrdConc[k]; c || isSym[k] {
+			continue
+		}
+		interned := false
+		for _, c := range in.ts.strList {
+			if c == out[r.name] {
+				interned = true // the model makes it equal to a concrete string: keep that if it fits the order
+			}
+		}
+		if interned {
+			fits := true
+			for kc, c := range in.strOrdConc {
+				if in.strOrdReach(k, kc) && !(out[r.name] < c) || in.strOrdReach(kc, k) && !(c < out[r.name]) {
+					fits = false
+				}
+			}
+			if fits {
+				continue
+			}
+		}
+		isSym[k] = true
+		syms = append(syms, symIn{r.name, k})
+	}
+	orig := map[string]string{}
+	for k, v := range out {
+		orig[k] = v
+	}
+	assigned := map[string]string{}
+	for k, c := range in.strOrdConc {
+		assigned[k] = c
+	}
+	for round := 0; round < len(syms)+1; round++ {
+		for i, s := range syms {
+			if _, done := assigned[s.key]; done {
+				continue
+			}
+			// every symbolic string decided below this one must be placed first
+			ready, lo, hasLo, hi, hasHi := true, "", false, "", false
+			for k := range isSym {
+				if k != s.key && in.strOrdReach(k, s.key) {
+					if _, ok := assigned[k]; !ok {
+						ready = false
+					}
+				}
+			}
+			if !ready {
+				continue
+			}
+			for k, c := range assigned {
+				if in.strOrdReach(k, s.key) && (!hasLo || c > lo) {
+					lo, hasLo = c, true
+				}
+				if in.strOrdReach(s.key, k) && (!hasHi || c < hi) {
+					hi, hasHi = c, true
+				}
+			}
+			cand := lo + "!" + fmt.Sprint(i)
+			if hasHi && !(cand < hi) {
+				break
+			}
+			assigned[s.key] = cand
+			for _, r := range in.inputs {
+				// inputs the model makes equal stay equal
+				if len(r.kind) >= 3 && r.kind[:3] == "str" && orig[r.name] == orig[s.name] {
+					out[r.name] = cand
+				}
+			}
+		}
+	}
 }
 
 // strKindBase: symbolic strings of these kinds range over a block of the Str
